@@ -13,6 +13,8 @@
 (*  C01_FetchInRange/Label     FETCH n labels the message the client holds *)
 (*                             at n                                        *)
 (*  C01_SearchInView           SEARCH results lie in the client's view     *)
+(*  C01_CommandInterpreted     the messages a COPY/MOVE acted on (COPYUID) *)
+(*                             are ones the client's numbers addressed     *)
 (*  C01_ViewAtStart/AtTagged   the client's count and number->UID mapping  *)
 (*                             equal the server's (glass box: _sorted)     *)
 (*                             when the next command is interpreted and    *)
@@ -179,12 +181,19 @@ IdleEnd(ev) ==
   ELSE IF ev.input # "done" /\ ev.cond # "BAD" THEN Fail("C16_OtherEndsBad")
   ELSE UNCHANGED <<cv, cf, mode>> /\ Ok
 
+\* COPYUID: the source UIDs are messages the CLIENT addressed (its sequence numbers as it
+\* held them when it sent the command; expunged ones may be missing)
+CopyUid(ev) ==
+  IF ev.hasaddr /\ ~(ToSet(ev.src) \subseteq ToSet(ev.addressed)) THEN Fail("C01_CommandInterpreted")
+  ELSE UNCHANGED <<cv, cf, mode>> /\ Ok
+
 Handle(ev) ==
   CASE ev.e = "start"   -> Start(ev)
     [] ev.e = "expunge" -> Expunge(ev)
     [] ev.e = "exists"  -> Exists(ev)
     [] ev.e = "fetch"   -> Fetch(ev)
     [] ev.e = "search"  -> Search(ev)
+    [] ev.e = "copyuid" -> CopyUid(ev)
     [] ev.e = "silent"  -> Silent(ev)
     [] ev.e = "unsilent" -> Unsilent(ev)
     [] ev.e = "tagged"  -> Tagged(ev)
